@@ -5,12 +5,15 @@ import (
 	"strconv"
 	"strings"
 	"testing"
+	"time"
 
 	"github.com/named-data/ndnd/fw/defn"
 	"github.com/named-data/ndnd/fw/dispatch"
 	"github.com/named-data/ndnd/fw/face"
 	enc "github.com/named-data/ndnd/std/encoding"
+	"github.com/named-data/ndnd/std/ndn"
 	spec "github.com/named-data/ndnd/std/ndn/spec_2022"
+	sec "github.com/named-data/ndnd/std/security"
 	"verif/harness/common"
 )
 
@@ -74,9 +77,42 @@ func nameInner(n enc.Name) []byte {
 	return b
 }
 
+// composeFilter: "q:<f>;..." → FaceQueryFilter(0x96){...}; F faceid, S uri scheme, U uri, L local uri,
+// C scope, P persistency, T link type; "q:e" = empty filter
+func (w *world) composeFilter(tok string) []byte {
+	var inner []byte
+	if tok != "e" {
+		for _, f := range strings.Split(tok, ";") {
+			k, v, _ := strings.Cut(f, "=")
+			switch k {
+			case "F":
+				inner = append(inner, tlv(0x69, natBytes(w.real(common.Atou(v)), 0))...)
+			case "S":
+				inner = append(inner, tlv(0x83, common.UnHex(v))...)
+			case "U":
+				inner = append(inner, tlv(0x72, []byte(w.portsIn(string(common.UnHex(v)))))...)
+			case "L":
+				inner = append(inner, tlv(0x81, []byte(w.portsIn(string(common.UnHex(v)))))...)
+			case "C":
+				inner = append(inner, tlv(0x84, natBytes(common.Atou(v), 0))...)
+			case "P":
+				inner = append(inner, tlv(0x85, natBytes(common.Atou(v), 0))...)
+			case "T":
+				inner = append(inner, tlv(0x86, natBytes(common.Atou(v), 0))...)
+			default:
+				panic("harness: bad filter field " + f)
+			}
+		}
+	}
+	return tlv(0x96, inner)
+}
+
 func (w *world) composeParams(tok string) []byte {
 	if strings.HasPrefix(tok, "raw:") {
 		return common.UnHex(tok[4:])
+	}
+	if strings.HasPrefix(tok, "q:") {
+		return w.composeFilter(tok[2:])
 	}
 	var inner []byte
 	if tok != "e" {
@@ -88,9 +124,9 @@ func (w *world) composeParams(tok string) []byte {
 			case k == "S":
 				inner = append(inner, tlv(0x6b, tlv(7, nameInner(common.ParseNameText(v))))...)
 			case k == "U":
-				inner = append(inner, tlv(0x72, common.UnHex(v))...)
+				inner = append(inner, tlv(0x72, []byte(w.portsIn(string(common.UnHex(v)))))...)
 			case k == "L":
-				inner = append(inner, tlv(0x81, common.UnHex(v))...)
+				inner = append(inner, tlv(0x81, []byte(w.portsIn(string(common.UnHex(v)))))...)
 			case len(k) > 1 && k[0] == 'u':
 				inner = append(inner, tlv(common.Atou(k[1:]), common.UnHex(v))...)
 			default:
@@ -128,7 +164,9 @@ func (w *world) cmdName(f []string) enc.Name {
 	name := append(enc.Name{}, common.ParseNameText(f[3])...)
 	name = append(name, compOrNone(f[4])...)
 	name = append(name, compOrNone(f[5])...)
-	if f[7] != "-" {
+	if f[7] == "ap:nodigest" {
+		name = append(name, enc.Component{Typ: enc.TypeParametersSha256DigestComponent, Val: make([]byte, 32)})
+	} else if f[7] != "-" && !strings.HasPrefix(f[7], "ap:") {
 		name = append(name, enc.Component{Typ: enc.TypeGenericNameComponent, Val: w.composeParams(f[7])})
 	}
 	for i := 0; i < common.Atoi(f[6]); i++ {
@@ -168,7 +206,25 @@ func exec(op string) string {
 			h.tr.TakeFrames()
 		}
 		before := w.mface.NOutInterests()
-		from.tr.Inject(lpFrame(makeInterest(name, w.nextSeq()), nh))
+		wire := []byte(nil)
+		switch f[7] {
+		case "ap:data":
+			// rib/announce with a prefix announcement object as application parameters
+			wire = makeInterestApp(name, w.nextSeq(), announcement())
+		case "ap:garbage":
+			wire = makeInterestApp(name, w.nextSeq(), []byte{0x06, 0x03, 0x07, 0x05, 0x08})
+		default:
+			wire = makeInterest(name, w.nextSeq())
+		}
+		if strings.HasPrefix(f[7], "ap:") {
+			// the responder names its Data after the Interest: the digest component is part of it
+			p, _, err := spec.ReadPacket(enc.NewBufferReader(wire))
+			if err != nil || p.Interest == nil {
+				panic("harness: cannot re-read own Interest")
+			}
+			name = p.Interest.NameV
+		}
+		from.tr.Inject(lpFrame(wire, nh))
 		if !w.barrier() {
 			return "HANG barrier"
 		}
@@ -178,6 +234,7 @@ func exec(op string) string {
 			return "HANG flush"
 		}
 		datas, _ := dataFromFrames(frames)
+		w.trackCreated()
 		return fmt.Sprintf("d=%d r=%s %s", delivered, w.respText(name, datas), w.dump())
 	case "send":
 		// send <face> <size>: an Interest of <size> bytes is queued for sending on the face, exactly
@@ -247,6 +304,18 @@ func exec(op string) string {
 		return "ok"
 	}
 	return "bad-op"
+}
+
+// announcement builds a prefix announcement object (a Data packet) with the repo's own encoder.
+func announcement() []byte {
+	n, _ := enc.NameFromStr("/verif/announced/32=PA/v=1/seg=0")
+	ct := ndn.ContentType(5)
+	fr := time.Second
+	d, err := spec.Spec{}.MakeData(n, &ndn.DataConfig{ContentType: &ct, Freshness: &fr}, enc.Wire{[]byte{0x6d, 0x01, 0x0a}}, sec.NewSha256Signer())
+	if err != nil {
+		panic("harness: announcement: " + err.Error())
+	}
+	return d.Wire.Join()
 }
 
 func TestVerif(t *testing.T) { common.Main(t, gen, exec) }
